@@ -3,6 +3,7 @@ package app
 import (
 	"fmt"
 	"io/fs"
+	mbits "math/bits"
 	"path"
 
 	"github.com/Eyevinn/mp4ff/bits"
@@ -46,11 +47,14 @@ func calcAudioSegRecipe(refNr uint32, refStart, refEnd, refTotalDur, refTimescal
 // calcAudioTimeFromRef returns audioTime right at or within one frameDur from refTime.
 // A frame is one mp4 sample, such as an AAC frame which is normally 1024 audio samples.
 func calcAudioTimeFromRef(refTime, refTimescale, audioFrameDur, audioTimescale uint64) uint64 {
-	audioOutTime := (refTime * audioTimescale / refTimescale) / audioFrameDur * audioFrameDur
-	if audioOutTime*refTimescale < refTime*audioTimescale {
-		audioOutTime += audioFrameDur
+	// nrFrames = ceil(refTime*audioTimescale / (refTimescale*audioFrameDur)); the product needs more than
+	// 64 bits for e.g. a 10 MHz reference timescale and wall-clock times of this century.
+	hi, lo := mbits.Mul64(refTime, audioTimescale)
+	nrFrames, rem := mbits.Div64(hi, lo, refTimescale*audioFrameDur)
+	if rem != 0 {
+		nrFrames++
 	}
-	return audioOutTime
+	return nrFrames * audioFrameDur
 }
 
 type sampleItvl struct {
